@@ -48,7 +48,7 @@ def pbf_frame(btype, blob, indexdata=None, datasize=None, extra=b''):
     return len(hdr).to_bytes(4, 'big') + hdr + blob
 
 
-def o5m_file(rng, nnodes, nways, trailing=b'\xfe'):
+def o5m_file(rng, nnodes, nways, trailing=b'\xfe', big=False):
     """A small o5m file (independent encoder written from the format description) and the
     ensure/advance script decode_data performs on it."""
     out = bytearray(b'\xff\xe0\x04o5m2')
@@ -71,6 +71,9 @@ def o5m_file(rng, nnodes, nways, trailing=b'\xfe'):
         lon, lat = nlon, nlat
         for _ in range(rng.below(3)):
             p += b'\x00' + rng.choice([b'highway', b'name', b'k']) + b'\x00' + rng.choice([b'v', b'residential', b'']) + b'\x00'
+        if big and rng.chance(1, 2):
+            # a dataset of >= 128 bytes: its length is a multi-byte varint that a cut can split
+            p += b'\x00note\x00' + bytes(97 + rng.below(26) for _ in range(130 + rng.below(200))) + b'\x00'
         dataset(0x10, p)
         if rng.chance(1, 6):
             out += b'\xff'
@@ -84,7 +87,7 @@ def o5m_file(rng, nnodes, nways, trailing=b'\xfe'):
         p = zz(wid - last_id) + b'\x00'
         last_id = wid
         refs = b''
-        for _ in range(rng.below(4)):
+        for _ in range(rng.below(4) + (70 + rng.below(60) if big and rng.chance(1, 2) else 0)):
             r = 1 + rng.below(50)
             refs += zz(r - last_ref)
             last_ref = r
@@ -163,6 +166,10 @@ def _run(ctx, rng, quick, hbin, scratch):
     for (nn, nw, tr) in [(0, 0, b'\xfe'), (1, 0, b'\xfe'), (1, 0, b''), (2, 1, b'\xfe'), (3, 2, b'\xfe\xfe'), (1, 0, b'\xfe' * 12), (6, 3, b'\xfe')] + \
             ([] if quick else [(20, 10, b'\xfe'), (2, 2, b''), (5, 0, b'\xfe' * 3)]):
         data, script = o5m_file(rng, nn, nw, tr)
+        files['o5m'].append(data)
+        o5m_scripts[data] = script
+    for (nn, nw) in [(2, 0), (1, 2), (3, 2)] + ([] if quick else [(6, 4), (10, 10)]):
+        data, script = o5m_file(rng, nn, nw, b'\xfe', big=True)
         files['o5m'].append(data)
         o5m_scripts[data] = script
     # the 17-byte file of DESIGN.md F6
